@@ -140,9 +140,14 @@ def state_diff(before, after):
                 mism.append((k, f"{before[k]} -> {after.get(k)}"))
         elif k.startswith("setting:"):
             if before[k] != after.get(k):
+                if k.startswith("setting:sharepoint2text") and before[k] == "None":
+                    continue          # a lazily initialised module-level constant (None -> object, once) is not residue
                 mism.append((k, f"{before[k][:80]} -> {str(after.get(k))[:80]}"))
         elif before[k] != after.get(k):
             mism.append((k, "function object replaced and not restored"))
+    for k in after:
+        if k not in before and k.startswith("setting:sharepoint2text") and after[k] != "None":
+            mism.append((k, f"(absent) -> {str(after[k])[:80]}"))
     return mism
 
 
@@ -415,19 +420,107 @@ def memo_search(rel, qual, budget=700):
 
 
 # ------------------------------------------------------------ history search --
+def package_state():
+    """Module-level flags, counters and configuration objects of the package itself, by value (containers -- the caches -- are
+    left out: they may grow; what they hold is the memo obligations' business)."""
+    out = {}
+    for name, mod in sorted(sys.modules.items()):
+        if not name.startswith("sharepoint2text") or ".tests" in name or mod is None:
+            continue
+        for k, v in list(vars(mod).items()):
+            if k.startswith("__"):
+                continue
+            if isinstance(v, (bool, int, float, str, bytes, type(None))):
+                out[f"setting:{name}.{k}"] = repr(v)[:200]
+            elif hasattr(v, "__dataclass_fields__") and not isinstance(v, type):
+                out[f"setting:{name}.{k}"] = repr(v)[:300]
+            # state hidden on code objects: function attributes, mutable default arguments (also of methods)
+            fs = []
+            if getattr(v, "__module__", None) == name and callable(v):
+                if isinstance(v, type):
+                    fs = [(f"{k}.{a}", getattr(m, "__func__", m)) for a, m in list(vars(v).items()) if callable(getattr(m, "__func__", m))]
+                    for a, m in list(vars(v).items()):
+                        if isinstance(m, (bool, int, float, str)) and not a.startswith("__"):
+                            out[f"setting:{name}.{k}.{a}"] = repr(m)[:120]
+                else:
+                    fs = [(k, v)]
+            for (fq, f) in fs:
+                f = getattr(f, "__wrapped__", f)
+                for a, val in list(getattr(f, "__dict__", {}).items()):
+                    if a != "__wrapped__" and isinstance(val, (bool, int, float, str, bytes, type(None), list, dict, set, tuple)):
+                        out[f"setting:{name}.{fq}.{a}"] = repr(val)[:200]
+                dfl = list(getattr(f, "__defaults__", None) or ()) + list((getattr(f, "__kwdefaults__", None) or {}).values())
+                if any(isinstance(d, (list, dict, set, bytearray)) for d in dfl):
+                    out[f"setting:{name}.{fq}.__defaults__"] = repr([d for d in dfl if isinstance(d, (list, dict, set, bytearray))])[:300]
+    return out
+
+
+def corrupted_archives(tmp, per_file=9):
+    """[(label, path)]: the small archive fixtures with a few bytes of their packed data destroyed at several places -- the header
+    still parses, unpacking fails half-way (the paths on which temporary directories and patched configuration must be undone)."""
+    out = []
+    for f in sorted(glob.glob(REPO + "/sharepoint2text/tests/resources/archives/*")):
+        if not os.path.isfile(f) or os.path.getsize(f) > 200_000:
+            continue
+        data = open(f, "rb").read()
+        name = os.path.basename(f)
+        stem, ext = (name[:-7], name[-7:]) if name.endswith(".tar.gz") else os.path.splitext(name)
+        lo, hi = 32, max(40, len(data) - 8)
+        step = max(1, (hi - lo) // per_file)
+        for k, pos in enumerate(range(lo, hi, step)):
+            bad = bytearray(data)
+            for j in range(pos, min(pos + 6, len(bad))):
+                bad[j] ^= 0xFF
+            p = os.path.join(tmp, f"{stem}_damaged{k}{ext}")
+            with open(p, "wb") as fh:
+                fh.write(bytes(bad))
+            out.append((f"{name} with bytes {pos}..{pos + 5} inverted", p))
+        p = os.path.join(tmp, f"{stem}_truncated{ext}")
+        with open(p, "wb") as fh:
+            fh.write(data[: len(data) * 2 // 3])
+        out.append((f"{name} cut after {len(data) * 2 // 3} bytes", p))
+        p = os.path.join(tmp, f"{stem}_intact{ext}")
+        with open(p, "wb") as fh:
+            fh.write(data)
+        out.append((f"{name} (intact)", p))
+    return out
+
+
 def history_search(docs=None, extra_note=""):
     import sharepoint2text
     tmp = tempfile.mkdtemp(prefix="c15_replay_")
     try:
+        probes = [] if docs else corrupted_archives(tmp)
         docs = docs or generated_corpus(tmp)
         paths = [p for (_l, p) in docs]
-        label = {p: l for (l, p) in docs}
+        label = {p: l for (l, p) in docs + probes}
 
         def alone(p):
-            before = global_state()
+            before = dict(global_state(), **package_state())
             d = digest(sharepoint2text, p)
-            return [d, state_diff(before, global_state())]
+            # a generator abandoned half-way (the caller stops iterating) must clean up as well
+            try:
+                ex = sharepoint2text.get_extractor(p)
+                g = ex(io.BytesIO(open(p, "rb").read()), p)
+                next(g, None)
+                g.close()
+            except Exception:  # noqa
+                pass
+            return [d, state_diff(before, dict(global_state(), **package_state()))]
         base = {}
+        # probes: failing / damaged inputs -- state before vs after, and the intact documents extracted right after them
+        followers = [p for (l, p) in probes if l.endswith("(intact)")]
+        for (lab, p) in probes:
+            if p in followers:
+                continue
+            r = forked(lambda p=p: alone(p)).get("ok")
+            if r is None:
+                continue
+            leaks = [m for m in r[1] if m[0] != "open_fds"]
+            if leaks:
+                return {"reproduced": True, "target": lab, "inputs": {"history": [], "document": lab, "bytes_hex": _hex(p)},
+                        "expected": "process-global state (temporary files, module configuration, patched functions) restored after the failed extraction",
+                        "observed": f"{leaks[0][0]}: {leaks[0][1]}", "search": "archive fixtures with damaged packed data"}
         for p in paths:
             r = forked(lambda p=p: alone(p)).get("ok")
             if r is None:
@@ -830,7 +923,7 @@ def run_schedule2(task_a, task_b, files, funcs, n, m, block_wait=BLOCK_WAIT):
     return out.get("A"), out.get("B"), cnt["A"], cnt["B"], where.get("A"), where.get("B")
 
 
-def patcher_schedule_search(rel, qual, cap=24):
+def patcher_schedule_search(rel, qual, cap=24, helpers=None):
     """Two threads use the zero-argument context manager `qual` (with-body: nothing) with two context switches: A enters ... B
     enters ... A leaves ... B leaves, at every pair of line events of the context manager.  Afterwards the process-global state
     must be what it was (and what a sequential run leaves)."""
@@ -840,7 +933,7 @@ def patcher_schedule_search(rel, qual, cap=24):
     except Exception:  # noqa
         return None
     files = {os.path.join(REPO, rel)}
-    funcs = {qual}
+    funcs = {qual} | set(helpers or ())          # the context manager and the private helpers that patch / restore on its behalf
 
     def use():
         with cm():
@@ -994,7 +1087,7 @@ def _find(req):
             return r
     if "/schedule#" in oid:
         for (r_, q_) in hint.get("patchers") or []:
-            r = patcher_schedule_search(r_, q_)
+            r = patcher_schedule_search(r_, q_, helpers=hint.get("functions"))
             if r:
                 r["found_by"] = "patcher schedule"
                 return r
